@@ -509,7 +509,7 @@ class assert_not_is_instance(RuntimeAssertionFeedback):
 
 
 def type_to_pedal_type(expected_type):
-    evaluated_expected_type = evaluate(expected_type) if isinstance(expected_type, str) else expected_type
+    evaluated_expected_type = unwrap_value(evaluate(expected_type)) if isinstance(expected_type, str) else expected_type
     expected_pedal_type = normalize_type(evaluated_expected_type, evaluate)
     if not isinstance(expected_pedal_type, Exception):
         expected_pedal_type = expected_pedal_type.as_type()
